@@ -26,7 +26,7 @@ ALL_QR_BITS, ALL_SIG_BITS = 2 ** 18 - 1, 2 ** 17 - 1
 
 def gen_time(rng, tps, base):
     s = base + rng.choice([0, 0, 1, 2, 3, 100])
-    return [s, rng.choice([0, 1, tps - 1, rng.randrange(tps)])]
+    return [s, rng.choice([0, 1, tps - 1, rng.randrange(tps)]) % tps]      # (normalised: ticks < ticks per second, also at 1 tick per second)
 
 def gen_rr(rng):
     return [rng.choice(NAMES), rng.choice(CTS), rng.choice([None, 0, 3600, 2 ** 32 - 1]), rng.choice([None] + RDATA)]
